@@ -293,9 +293,13 @@ class ForestRoundTrip(Contract):
         if self.layered:
             from .sections import _sv_fields, SECTIONS
             f = _sv_fields(E, child.fields["release"], ["name", "version", "short", "type"], "C.rel")
-            child.fields["release"].fields["is_layered"] = True
+            # the caller may have left is_layered at False: the writer normalises it (C08: the FIRST dump already shows it)
+            il = SV(z3.Const("C.rel.is_layered", sym.Val))
+            E.assume(sym.is_bool(il))
+            child.fields["release"].fields["is_layered"] = il
             child.fields["release"].fields["internal"] = False
             E.assume(F.valid_release(self.T, child.fields["release"]))
+            vs["C"][1]["is_layered_in"] = il
             vs["C"][1]["rel"] = f
         other = mk("U", uidv, uidv, None, "variant")
         top.fields["variants"].entries.append(Entry(cid, True, child))
@@ -361,6 +365,12 @@ class ForestRoundTrip(Contract):
         if self.layered and isinstance(c2, Obj):
             rf = vs["C"][1]["rel"]
             cl["layered_product_release_reproduced"] = And(*[_veq(c2.fields["release"].fields[k], rf[k]) for k in ("name", "version", "short", "type")])
+            sec = E.models.sd_lookup(st["data"], "variants", create=False)
+            ve = E.models.sd_lookup(sec.value, vs["C"][1]["uid"], create=False) if sec is not None and isinstance(sec.value, SymDict) else None
+            re_ = E.models.sd_lookup(ve.value, "release", create=False) if ve is not None and isinstance(ve.value, SymDict) else None
+            il = E.models.sd_lookup(re_.value, "is_layered", create=False) if re_ is not None and isinstance(re_.value, SymDict) else None
+            cl["layered_product_release_written_as_layered"] = And(_veq(il.value, True), _veq(c2.fields["release"].fields["is_layered"], True)) \
+                if il is not None and il.present is True else False
         return cl
 
     def concretise(self, model, st):
@@ -371,6 +381,7 @@ class ForestRoundTrip(Contract):
             inp[tag] = dict((k, concretise.value_of(model, f[k])) for k in ("id", "name", "type", "path"))
         if self.layered:
             inp["rel"] = dict((k, concretise.value_of(model, v)) for k, v in vs["C"][1]["rel"].items())
+            inp["is_layered_in"] = bool(concretise.value_of(model, vs["C"][1]["is_layered_in"]))
         return inp
 
     def sample_inputs(self, rng):
@@ -381,6 +392,8 @@ class ForestRoundTrip(Contract):
                        "U": {"id": ids[2], "name": "u", "type": "variant", "path": "U/os"}}
                 if self.layered:
                     inp["rel"] = {"name": "LP", "version": "1.0", "short": "lp", "type": "ga"}
+                    yield dict(inp, is_layered_in=False)
+                    inp["is_layered_in"] = True
                 yield inp
 
     def native_eval(self, inputs):
@@ -402,6 +415,7 @@ class ForestRoundTrip(Contract):
         if self.layered:
             for k, v in inputs["rel"].items():
                 setattr(C_.release, k, v)
+            C_.release.is_layered = inputs.get("is_layered_in", True)
         T_.variants[C_.id] = C_
         ci.variants.variants[T_.id] = T_
         ci.variants.variants[U_.id] = U_
@@ -430,6 +444,8 @@ class ForestRoundTrip(Contract):
               "no_other_children": t2 is not None and len(t2.variants) == 1 and u2 is not None and not u2.variants}
         if self.layered and c2 is not None:
             cl["layered_product_release_reproduced"] = all(getattr(c2.release, k) == v for k, v in inputs["rel"].items())
+            wr = data.get("variants", {}).get("%s-%s" % (inputs["T"]["id"], inputs["C"]["id"]), {}).get("release", {})
+            cl["layered_product_release_written_as_layered"] = wr.get("is_layered") is True and c2.release.is_layered is True
         return nat, cl
 
     def describe(self, inputs):
@@ -654,9 +670,156 @@ class ForestWriteValidates(Contract):
         return "composeinfo forest with %s %r under parent %r written" % ("child" if self.depth == 1 else "grand-child", inputs, inputs["parent_uid"])
 
 
+class GetVariants(Contract):
+    """VariantBase.get_variants called on the top variant T of the chain T -> C -> G (ids, types, arches symbolic; T has arches {a1, a2},
+    C and G {a1}) for an arch filter (None or a symbolic arch), a type filter (none, [X], ['self'], ['self', X] with X symbolic) and both
+    values of `recursive`: nothing is returned twice, the result is ordered by UID, everything returned (other than the receiver
+    requested as 'self') has the requested arch ('src' matches all) and one of the requested types, and without filters the result is
+    every child (every descendant when recursive)."""
+    name = "productmd.composeinfo.VariantBase.get_variants"
+    key = "meth:composeinfo.VariantBase.get_variants"
+
+    def __init__(self, src, T):
+        self.src, self.T = src, T
+
+    def setup(self, E):
+        ci = E.instantiate(("composeinfo", "ComposeInfo"))
+        a1 = SV(sym.Val.VStr(z3.Const("a1", sym.S)))
+        a2 = SV(sym.Val.VStr(z3.Const("a2", sym.S)))
+        E.assume(And(Not(eq(a1, a2)), Not(eq(a1, "src")), Not(eq(a2, "src")), Not(eq(a1, "")), Not(eq(a2, ""))))
+        vs = []
+        parent = None
+        for tag, arches in (("T", [a1, a2]), ("C", [a1]), ("G", [a1])):
+            v = E.instantiate(("composeinfo", "Variant"), [ci])
+            vid = SV(sym.Val.VStr(z3.Const("%s.id" % tag, sym.S)))
+            typ = SV(sym.Val.VStr(z3.Const("%s.type" % tag, sym.S)))
+            E.assume(And(sym.in_lang(vid, ID), sym.isin(typ, [t for t in self.T.VARIANT_TYPES])))
+            uid = vid if parent is None else sym.concat(parent[1]["uid"], "-", vid)
+            v.fields.update({"id": vid, "uid": uid, "name": "n", "type": typ, "arches": ListSet(list(arches)),
+                             "parent": parent[0] if parent else None})
+            f = {"id": vid, "uid": uid, "type": typ, "arches": arches}
+            if parent:
+                parent[0].fields["variants"].entries.append(Entry(vid, True, v))
+            vs.append((v, f))
+            parent = (v, f)
+        X = SV(sym.Val.VStr(z3.Const("filter.type", sym.S)))
+        E.assume(sym.isin(X, [t for t in self.T.VARIANT_TYPES]))
+        tmode = 0
+        for i in (1, 2, 3):
+            if E.decide(E.fresh("types_mode_%d" % i, z3.BoolSort())):
+                tmode = i
+                break
+        types = {0: None, 1: [X], 2: ["self"], 3: ["self", X]}[tmode]
+        arch = None
+        if E.decide(E.fresh("arch_filter_given", z3.BoolSort())):
+            arch = SV(sym.Val.VStr(z3.Const("filter.arch", sym.S)))
+            E.assume(Not(eq(arch, "")))
+        rec = E.decide(E.fresh("recursive", z3.BoolSort()))
+        return {"vs": vs, "X": X, "tmode": tmode, "types": types, "arch": arch, "rec": bool(rec)}
+
+    def call(self, E, st):
+        return E.call(E.getattr_(st["vs"][0][0], "get_variants"), [], {"arch": st["arch"], "types": st["types"], "recursive": st["rec"]})
+
+    def post(self, E, st, out):
+        if out.kind == "raise":
+            return {"query_does_not_fail": False}
+        res = out.value
+        if not isinstance(res, list) or not all(isinstance(x, Obj) for x in res):
+            return {"query_does_not_fail": True, "no_variant_returned_twice": False}
+        vs = st["vs"]
+        objs = [v for v, _ in vs]
+        fs = dict((id(v), f) for v, f in vs)
+        uniq = all(res[i] is not res[j] for i in range(len(res)) for j in range(i + 1, len(res)))
+        known = all(any(x is o for o in objs) for x in res)
+        order = True
+        for a, b in zip(res, res[1:]):
+            le = E.models.struct_str_lt(sym.sstr(fs[id(b)]["uid"]), sym.sstr(fs[id(a)]["uid"])) if known else None
+            order = And(order, (le is False) if le is not None else sym.as_bool(sym.sstr(fs[id(a)]["uid"]) <= sym.sstr(fs[id(b)]["uid"]))) if known else False
+        types = st["types"] or []
+        want_self = "self" in types
+        real_types = [t for t in types if not (isinstance(t, str) and t == "self")]
+        match = []
+        for x in res:
+            if not known:
+                match.append(False)
+                continue
+            if x is objs[0]:
+                match.append(want_self)
+                continue
+            f = fs[id(x)]
+            arch_ok = True if st["arch"] is None else Or(eq(st["arch"], "src"), *[eq(st["arch"], a) for a in f["arches"]])
+            type_ok = True if not types else (Or(*[eq(f["type"], t) for t in real_types]) if real_types else False)
+            match.append(And(arch_ok, type_ok))
+        cl = {"query_does_not_fail": True, "no_variant_returned_twice": uniq and known, "ordered_by_uid": order,
+              "everything_returned_matches_the_filters": And(*match) if match else True}
+        if st["arch"] is None and not types:
+            exp = objs[1:] if st["rec"] else objs[1:2]
+            cl["no_filter_returns_every_variant_of_the_level_or_forest"] = len(res) == len(exp) and all(any(x is e for x in res) for e in exp)
+        return cl
+
+    def concretise(self, model, st):
+        inp = {"rec": st["rec"], "tmode": st["tmode"], "X": concretise.value_of(model, st["X"]),
+               "arch": None if st["arch"] is None else concretise.value_of(model, st["arch"])}
+        for (v, f), tag in zip(st["vs"], "TCG"):
+            inp[tag] = {"id": concretise.value_of(model, f["id"]), "type": concretise.value_of(model, f["type"]),
+                        "arches": [concretise.value_of(model, a) for a in f["arches"]]}
+        return inp
+
+    def sample_inputs(self, rng):
+        import itertools
+        for rec, tmode, arch, X in itertools.product([False, True], [0, 1, 2, 3], [None, "x86_64", "s390x", "src", "ppc64le"], ["variant", "addon", "optional"]):
+            yield {"rec": rec, "tmode": tmode, "arch": arch, "X": X, "T": {"id": "Server", "type": "variant", "arches": ["x86_64", "s390x"]},
+                   "C": {"id": "HA", "type": "addon", "arches": ["x86_64"]}, "G": {"id": "Debug", "type": "optional", "arches": ["x86_64"]}}
+
+    def native_eval(self, inputs):
+        CI = self.src.mods["composeinfo"]
+        ci = CI.ComposeInfo()
+        objs = []
+        parent = None
+        for tag in "TCG":
+            f = inputs[tag]
+            v = CI.Variant(ci)
+            v.id, v.name, v.type, v.arches = f["id"], "n", f["type"], set(f["arches"])
+            v.uid = f["id"] if parent is None else "%s-%s" % (parent.uid, f["id"])
+            v.parent = parent
+            if parent is not None:
+                parent.variants[v.id] = v
+            objs.append(v)
+            parent = v
+        X = inputs["X"]
+        types = {0: None, 1: [X], 2: ["self"], 3: ["self", X]}[inputs["tmode"]]
+        nat = native_call(objs[0].get_variants, arch=inputs["arch"], types=types, recursive=inputs["rec"])
+        if nat[0] == "raise":
+            return nat, {"query_does_not_fail": False}
+        res = nat[1]
+        types = types or []
+        real = [t for t in types if t != "self"]
+
+        def ok(x):
+            if x is objs[0]:
+                return "self" in types
+            a = inputs["arch"] is None or inputs["arch"] == "src" or inputs["arch"] in x.arches
+            t = (not types) or x.type in real
+            return a and t
+        cl = {"query_does_not_fail": True,
+              "no_variant_returned_twice": len(set(id(x) for x in res)) == len(res) and all(any(x is o for o in objs) for x in res),
+              "ordered_by_uid": [x.uid for x in res] == sorted(x.uid for x in res),
+              "everything_returned_matches_the_filters": all(ok(x) for x in res)}
+        if inputs["arch"] is None and not types:
+            exp = objs[1:] if inputs["rec"] else objs[1:2]
+            cl["no_filter_returns_every_variant_of_the_level_or_forest"] = len(res) == len(exp) and all(any(x is e for x in res) for e in exp)
+        return nat, cl
+
+    def describe(self, inputs):
+        X = inputs["X"]
+        types = {0: None, 1: [X], 2: ["self"], 3: ["self", X]}[inputs["tmode"]]
+        return "T.get_variants(arch=%r, types=%r, recursive=%r) on the chain T=%r -> C=%r -> G=%r" % (
+            inputs["arch"], types, inputs["rec"], inputs["T"], inputs["C"], inputs["G"])
+
+
 def contracts(src, T):          # noqa: F811
     return [VariantAdd(src, T, "Variants", 0), VariantAdd(src, T, "Variants", 1), VariantAdd(src, T, "Variant", 0), VariantAdd(src, T, "Variant", 1),
             GetItem(src, T), ForestRoundTrip(src, T, False), ForestRoundTrip(src, T, True)] + \
         [VariantReaderValid(src, T, "record", k) for k in VARIANT_RECORD_FIELDS] + \
         [VariantReaderValid(src, T, "release", k) for k in LP_RELEASE_FIELDS] + \
-        [ForestWriteValidates(src, T, 1), ForestWriteValidates(src, T, 2)]
+        [ForestWriteValidates(src, T, 1), ForestWriteValidates(src, T, 2), GetVariants(src, T)]
